@@ -28,7 +28,7 @@ def kindIdx : Kind → Nat
 /-- an injective numbering of types, only to order values -/
 def tyCode : Ty → Nat
   | .simple t => 5 * t
-  | .agg k b => 5 * b + 1 + kindIdx k
+  | .agg k b => 5 * tyCode b + 1 + kindIdx k
 
 def Val.le (a b : Val) : Bool :=
   decide (tyCode a.ty < tyCode b.ty) || (decide (tyCode a.ty = tyCode b.ty) && decide (a.v ≤ b.v))
